@@ -219,6 +219,31 @@ class Run:
         s = ','.join('%s=%s' % (k, v) for k, v in sorted(cfg.items()) if not k.startswith('_'))
         return h['name'] + ('[' + s + ']' if s else '')
 
+    def expand_unwindset(self, base_cmd, entries):
+        """additive helper: an entry 're:<regex>:<bound>' stands for '<loop id>:<bound>' for every loop id listed by
+        `cbmc --show-loops` (same files/defines/entry point) that the regex matches; used for loops that live in nmtools functions
+        whose sanitized names carry a hash (e.g. the evaluator's copy loop). Plain entries pass through unchanged."""
+        if not any(e.startswith('re:') for e in entries): return list(entries)
+        key = tuple(base_cmd)
+        with LOCK:
+            cache = self.__dict__.setdefault('loops_cache', {})
+            loops = cache.get(key)
+        if loops is None:
+            r = run_cmd(list(base_cmd) + ['--show-loops'], timeout=600, mem_gb=8)
+            loops = []
+            try:
+                for x in json.loads(r['out']):
+                    if isinstance(x, dict) and 'loops' in x: loops += [l['name'] for l in x['loops']]
+            except Exception:
+                loops = re.findall(r'"name": "([^"]+)"', r['out'])
+            with LOCK: cache[key] = loops
+        out = []
+        for e in entries:
+            if not e.startswith('re:'): out.append(e); continue
+            rx, bound = e[3:].rsplit(':', 1)
+            out += ['%s:%s' % (l, bound) for l in loops if re.search(rx, l)]
+        return out
+
     def cbmc_cmd(self, h, cfg, extra_defs=(), more=()):
         files = [self.tus[k]['c'] for k in h['kernels']] + [os.path.join(ROOT, h['src'])]
         defs = ['-D%s=%s' % (k, v) for k, v in cfg.items() if not k.startswith('_')] + ['-D' + d for d in extra_defs]
@@ -226,7 +251,7 @@ class Run:
         cmd = ['cbmc'] + files + ['-I' + ENGINE, '-I' + self.scratch, '-I' + os.path.join(ROOT, 'harnesses')] + defs + [
             '--function', h['func'], '--unwind', str(unwind), '--unwinding-assertions', '--drop-unused-functions',
             '--object-bits', str(cfg.get('_objbits', h.get('objbits', 12))), '--json-ui', '--verbosity', '4']
-        for us in (cfg.get('_unwindset') or h.get('unwindset') or []):
+        for us in self.expand_unwindset(cmd, cfg.get('_unwindset') or h.get('unwindset') or []):
             cmd += ['--unwindset', us]
         backend = cfg.get('_backend', h.get('backend', 'sat'))
         if backend == 'kissat': cmd += ['--external-sat-solver', 'kissat']
